@@ -75,6 +75,10 @@ def gen_dataset(rng, max_depth=3, types=None):
                 fill(g, prefix + "/" + gname, depth + 1, scope)
             else:
                 vname = rng.choice(["a", "b", "c", "v", "w"]) + str(rng.randint(0, 9))
+                if node.dims and rng.random() < 0.25:
+                    # a variable named like a dimension of its group - with whatever rank and dimensions it declares itself
+                    # (a coordinate variable, but also a scalar or a rank-2 variable of that name)
+                    vname = rng.choice(node.dims)[0]
                 if vname in used:
                     continue
                 used.add(vname)
@@ -204,7 +208,7 @@ class Dap4App:
         q = unquote(environ.get("QUERY_STRING", ""))
         self.seen.append((path, q))
         if path.endswith(".dmr"):
-            body = render_dmr(self.root)
+            body = render_dmr(self.constrain(q)[0] if q.startswith("dap4.ce=") else self.root)
             start_response("200 OK", [("Content-Type", "application/vnd.opendap.dap4.dataset-metadata+xml"),
                                       ("Content-Length", str(len(body)))])
             return [body]
@@ -221,39 +225,50 @@ class Dap4App:
         start_response("404 Not Found", [("Content-Type", "text/plain")])
         return [b"not found"]
 
-    def dap(self, q):
+    def constrain(self, q):
+        """dap4.ce=<fqn><hyperslab>[;<fqn><hyperslab>...] -> (constrained description, [(variable, constrained values)])"""
         import re
         assert q.startswith("dap4.ce=")
-        ce = q[len("dap4.ce="):]
-        m = re.match(r"^([^\[]+)((\[[^\]]*\])*)$", ce)
-        fqn, slab = m.group(1), m.group(2)
-        var = None
-        for v in variables(self.root):
-            if v.path.lstrip("/") == fqn.lstrip("/"):
-                var = v
-        if var is None:
-            raise KeyError(fqn)
-        idx = []
-        for part in re.findall(r"\[([^\]]*)\]", slab):
-            t = [int(x) for x in part.split(":")]
-            if len(t) == 1:
-                idx.append(slice(t[0], t[0] + 1, 1))
-            elif len(t) == 2:
-                idx.append(slice(t[0], t[1] + 1, 1))
-            else:
-                idx.append(slice(t[0], t[2] + 1, t[1]))
-        if len(idx) > len(var.shape):
-            raise IndexError("too many hyperslabs")
-        arr = var.values[tuple(idx)] if idx else var.values
-        # the response DMR declares only that variable (inside its groups), with the constrained extents
         sub = Node(self.root.name)
-        cur = sub
-        parts = [p for p in var.path.split("/") if p]
-        for g in parts[:-1]:
-            n = Node(g)
-            cur.members.append(n)
-            cur = n
-        cur.members.append(Var(var.name, var.type, [("anon", int(e)) for e in arr.shape], arr))
-        ser = serialize([(var, arr)], self.little)
+        picked = []
+        for ce in q[len("dap4.ce="):].split(";"):
+            m = re.match(r"^([^\[]+)((\[[^\]]*\])*)$", ce)
+            fqn, slab = m.group(1), m.group(2)
+            var = None
+            for v in variables(self.root):
+                if v.path.lstrip("/") == fqn.lstrip("/"):
+                    var = v
+            if var is None:
+                raise KeyError(fqn)
+            idx = []
+            for part in re.findall(r"\[([^\]]*)\]", slab):
+                t = [int(x) for x in part.split(":")]
+                if len(t) == 1:
+                    idx.append(slice(t[0], t[0] + 1, 1))
+                elif len(t) == 2:
+                    idx.append(slice(t[0], t[1] + 1, 1))
+                else:
+                    idx.append(slice(t[0], t[2] + 1, t[1]))
+            if len(idx) > len(var.shape):
+                raise IndexError("too many hyperslabs")
+            arr = var.values[tuple(idx)] if idx else var.values
+            # the constrained DMR declares only the named variables (inside their groups), with the constrained extents
+            cur = sub
+            parts = [p for p in var.path.split("/") if p]
+            for g in parts[:-1]:
+                nxt = [m_ for m_ in cur.members if isinstance(m_, Node) and m_.name == g]
+                if nxt:
+                    cur = nxt[0]
+                else:
+                    n = Node(g)
+                    cur.members.append(n)
+                    cur = n
+            cur.members.append(Var(var.name, var.type, [("anon", int(e)) for e in arr.shape], arr))
+            picked.append((var, arr))
+        return sub, picked
+
+    def dap(self, q):
+        sub, picked = self.constrain(q)
+        ser = serialize(picked, self.little)
         payload = b"".join(raw + cks for raw, cks in ser)
         return respond(render_dmr(sub), payload, self.little, self.chunk_sizes)
